@@ -49,7 +49,7 @@ ImageOf(cc, a) == IF cc.dir = "fwd" THEN ToEq(cc.stripe, a) ELSE ToMuNu(cc.strip
 ExpAnchor(cc) == LET im == ImageOf(cc, cc.src)
                      polar == AbsI(PosOf(im).lat) >= 899
                  IN [image |-> im, src |-> PosOf(cc.src), dst |-> PosOf(im), polar |-> polar, tol |-> PosTolNdeg(polar),
-                     forms |-> PosForms(PosOf(cc.src))]
+                     forms |-> PosForms(PosOf(cc.src)), carriers |-> CarriersFor(cc.src)]
 
 InitVecAnchor == \E lon \in AxisLons : \E lat \in AxisLats : \E l \in BOOLEAN :
                     c = [kind |-> "vecanchor", lon |-> lon, lat |-> lat, latitude |-> l]
@@ -168,6 +168,19 @@ C18_IntForms == IsDist => /\ ((exp.forms = {}) = (exp.mixes = {}))
                                 EAIntegral(x) /\ FormLo(f) <= x.b \div 8 /\ x.b \div 8 <= FormHi(f)
                           /\ ((\E x \in {c.p.ra, c.p.dec, c.q.ra, c.q.dec} : x.b < 0) => exp.forms \cap {"uint8", "uint16", "uint32", "uint64"} = {})
 
+(* float forms: single precision is offered exactly when every coordinate is a single-precision number (the value  *)
+(* n / 2^k with |n| < 2^24); the coarse families (poles, antipodes, the integer grid) all admit it; where the value   *)
+(* is demanded of single precision it is demanded of double precision too, and more tightly                             *)
+C18_FloatForms == IsDist =>
+   /\ "longdouble" \in exp.fforms /\ exp.fforms \subseteq FloatForms
+   /\ ("float32" \in exp.fforms) = (\A x \in {c.p.ra, c.p.dec, c.q.ra, c.q.dec} : F32Exact(x, c.k))
+   /\ ((c.k = KMin \/ c.fam = "intgrid") => "float32" \in exp.fforms)
+   /\ (exp.forms # {} => "float32" \in exp.fforms)
+   /\ (exp.sdemand => exp.demand) /\ exp.stolppb >= exp.tolppb /\ exp.ssymppb >= exp.stolppb /\ exp.sslackppb >= exp.slackppb
+   /\ (exp.sdemand => exp.d.b >= 1)
+(* every anchor admits every carrier: bare directions and distances below, at and above the unit *)
+C18_Carriers == IsAnchor => /\ exp.carriers = CarrierDist8
+                            /\ {CarrierClass(d) : d \in exp.carriers} = CarrierClasses \ {"mixed"}
 (* the centre and its antipode are half a turn apart; the complement negates; inside <=> distance >= 0;  *)
 (* the centre is inside the cap and outside its complement, the antipode the other way round             *)
 C18_CapSelf == c.kind = "capself" =>
